@@ -1,5 +1,6 @@
 """Seeded histories for engine A (C11): ack-required locks on a leader with 0..2 follower links, interleaved with
-follower acks (positive / negative / lost by a cut), leader flushes (ok / failing), timeouts, unlock pre-emption,
+follower acks (positive / negative / lost by a cut), leader flushes (ok / failing in the entry write, in the value write, in
+both; for good or for a while; with the channel goroutine let run between the two writes), timeouts, unlock pre-emption,
 demotion; wider than the bounded AckQuorum model (several keys, more requests, INCR / APPEND / SET value operations,
 shared keys, parked DoAckLock).  Same step format as the TLC-generated behaviours."""
 import random, struct
@@ -43,8 +44,9 @@ def gen_ack(seed, i):
     steps, rid = [], 0
     acks = []          # (rid, key, lid) of ack requests issued so far
     up = set(range(1, nf + 1))
-    faults = rng.choice(["none", "neg", "fail", "cut", "dem", "mix", "neg", "cut"])
-    failed = demoted = False
+    faults = rng.choice(["none", "neg", "fail", "cut", "dem", "mix", "neg", "cut", "fail", "mix"])
+    demoted = False
+    recbad = valbad = False     # state of the two log files (entries / values)
     # optionally give the keys a value first (plain lock + unlock)
     for k in range(1, nkeys + 1):
         if rng.random() < 0.5:
@@ -87,10 +89,24 @@ def gen_ack(seed, i):
             steps.append(fack(rng.randint(1, nf), r0, k0, l0, ok=not neg, park=pk))
             parked = parked or pk
         elif x < 0.88:
-            bad = faults in ("fail", "mix") and not failed and rng.random() < 0.3
-            failed = failed or bad
+            # a flush is two writes: either file can start to fail (for good, or until a later flush finds it working again)
+            st = {"op": "flush", "ok": True, "rec": "", "val": "", "mid": rng.random() < 0.5}
+            if faults in ("fail", "mix"):
+                if (recbad or valbad) and rng.random() < 0.25:
+                    recbad = valbad = False
+                    st["rec"], st["val"] = "ok", "ok"
+                elif not (recbad and valbad) and rng.random() < 0.45:
+                    which = rng.choice(["rec", "val", "val", "both"])
+                    if which in ("rec", "both"):
+                        recbad = True
+                    if which in ("val", "both"):
+                        valbad = True
+                if recbad:
+                    st["rec"] = "fail"
+                if valbad:
+                    st["val"] = "fail"
+            st["ok"] = not (recbad or valbad)
             pk = (not parked) and rng.random() < 0.1
-            st = {"op": "flush", "ok": not (bad or failed)}
             if pk:
                 st["park"] = True
                 parked = True
@@ -112,3 +128,112 @@ def gen_ack(seed, i):
             steps.append({"op": "tick", "n": 1})
     steps.append({"op": "drain", "n": 12})
     return {"name": f"ackrnd-{seed}-{i}", "followers": nf, "mode": mode, "steps": steps, "complete": True, "cfg": {}}
+
+
+CARRIERS = ["set", "incr", "append", "keyval", "none"]
+
+def flush_case(nf, mode, fault, carrier, pos, order, heal, tag):
+    """One directed history around ONE failing flush: ack lock B (value carrier `carrier`) on key 1 with a plain waiter C
+    behind it; the flush that carries B's record fails in `fault` (entry write / value write / both); follower acks are
+    delivered before or after that flush; pos = 2: an earlier ack lock on another key went through a healthy flush first;
+    heal: afterwards the files work again and a further value-carrying ack lock must go through."""
+    steps, rid = [], 0
+    def nxt():
+        nonlocal rid
+        rid += 1
+        return rid
+    def facks(target, key, lid):
+        for f in range(1, nf + 1):
+            steps.append(fack(f, target, key, lid))
+    if carrier in ("keyval", "append"):
+        steps.append(lock(nxt(), 1, 9, False, 0, ex=5, data=data_set("v0")))
+        steps.append(unlock(nxt(), 1, 9))
+    elif carrier == "incr":
+        steps.append(lock(nxt(), 1, 9, False, 0, ex=5, data=data_incr(5)))
+        steps.append(unlock(nxt(), 1, 9))
+    if pos == 2:
+        a = nxt()
+        steps.append(lock(a, 2, 3, True, 3, data=data_set("early")))
+        facks(a, 2, 3)
+        steps.append({"op": "flush", "ok": True, "rec": "ok", "val": "ok", "mid": True})
+    b = nxt()
+    d = {"set": data_set("new"), "incr": data_incr(2), "append": data_append("+x"), "keyval": "", "none": ""}[carrier]
+    steps.append(lock(b, 1, 1, True, 3, data=d))
+    steps.append(lock(nxt(), 1, 7, False, 6, ex=30))           # queued behind B: must be served when B fails
+    steps.append(lock(nxt(), 1, 1, False, 0))                  # names B's LockId while B is pending
+    if order == "before":
+        facks(b, 1, 1)
+    steps.append({"op": "flush", "ok": False, "rec": "fail" if fault in ("rec", "both") else "ok", "val": "fail" if fault in ("val", "both") else "ok", "mid": True})
+    if order == "after":
+        facks(b, 1, 1)
+    if heal:
+        e = nxt()
+        steps.append(lock(e, 3, 2, True, 3, data=data_set("later")))
+        facks(e, 3, 2)
+        steps.append({"op": "flush", "ok": True, "rec": "ok", "val": "ok", "mid": True})
+    steps.append({"op": "tick", "n": 1})
+    steps.append({"op": "drain", "n": 12})
+    return {"name": f"ackflush-{tag}nf{nf}-m{mode}-{fault}-{carrier}-p{pos}-{order}{'-heal' if heal else ''}", "followers": nf, "mode": mode,
+            "steps": steps, "complete": True, "cfg": {}}
+
+def flush_matrix(seed, sample=None):
+    """followers 0..2 x ack mode x failing write x value carrier x flush position x ack order (x seeded: files healing or not)."""
+    rng = random.Random(seed * 7907 + 5)
+    out = []
+    for nf in (0, 1, 2):
+        for mode in (0, 1):
+            for fault in ("val", "rec", "both"):
+                for carrier in CARRIERS:
+                    for pos in (1, 2):
+                        for order in (("before",) if nf == 0 else ("before", "after")):
+                            out.append(flush_case(nf, mode, fault, carrier, pos, order, rng.random() < 0.4, f"{seed}-"))
+    if sample is not None and sample < len(out):
+        out = rng.sample(out, sample)
+    return out
+
+
+def frec(op, rid, key, lid, data="", ack=True):
+    return {"op": op, "id": rid, "db": 0, "key": key, "lid": lid, "tf": TF_ACK if ack else 0, "ex": 30, "cnt": 0, "data": data}
+
+def follower_case(fault, carrier, order, second, pos, tag):
+    """Follower part of engine A: record 1 (ack-required LOCK, value frame or not) reaches a follower-role node; its append
+    (log) and replay halves come in `order` (arf: append, replay, flush; afr: append, flush, replay; raf: replay, append,
+    flush); the flush that carries it fails in `fault`; second: another ack record (other key; with / without value) shares
+    that flush; pos = 2: a healthy flush of an earlier record went first."""
+    steps = []
+    d1 = {"set": data_set("fv"), "incr": data_incr(3), "none": ""}[carrier]
+    if pos == 2:
+        steps += [frec("append", 9, 5, 5, data_set("e")), frec("replay", 9, 5, 5, data_set("e")), {"op": "flush", "ok": True, "rec": "ok", "val": "ok", "mid": True}]
+    fl = {"op": "flush", "ok": fault == "none", "rec": "fail" if fault in ("rec", "both") else "ok", "val": "fail" if fault in ("val", "both") else "ok", "mid": True}
+    r1a, r1r = frec("append", 1, 1, 1, d1), frec("replay", 1, 1, 1, d1)
+    extra = []
+    if second != "no":
+        d2 = data_set("w") if second == "val" else ""
+        extra = [frec("append", 2, 2, 2, d2), frec("replay", 2, 2, 2, d2)]
+    if order == "arf":
+        steps += [r1a, r1r] + extra + [fl]
+    elif order == "afr":
+        steps += [r1a] + extra[:1] + [fl, r1r] + extra[1:]
+    else:
+        steps += [r1r, r1a] + extra[::-1] + [fl]
+    steps.append({"op": "tick", "n": 1})
+    return {"name": f"ackfol-{tag}{fault}-{carrier}-{order}-second{second}-p{pos}", "cfg": {}, "steps": steps}
+
+def follower_matrix(seed, sample=None):
+    rng = random.Random(seed * 4801 + 11)
+    out = []
+    for fault in ("none", "val", "rec", "both"):
+        for carrier in ("set", "incr", "none"):
+            for order in ("arf", "afr", "raf"):
+                for second in ("no", "val", "noval"):
+                    for pos in (1, 2):
+                        out.append(follower_case(fault, carrier, order, second, pos, f"{seed}-"))
+    # a record whose replay fails on the follower (the key is held by another LockId): negative ack whatever the log does
+    for fault in ("none", "val"):
+        steps = [frec("append", 1, 1, 1, data_set("a")), frec("replay", 1, 1, 1, data_set("a")), {"op": "flush", "ok": True, "rec": "ok", "val": "ok", "mid": True},
+                 frec("append", 2, 1, 2, data_set("b")), frec("replay", 2, 1, 2, data_set("b")),
+                 {"op": "flush", "ok": fault == "none", "rec": "ok", "val": "fail" if fault == "val" else "ok", "mid": True}, {"op": "tick", "n": 1}]
+        out.append({"name": f"ackfol-{seed}-replay-refused-{fault}", "cfg": {}, "steps": steps})
+    if sample is not None and sample < len(out):
+        out = rng.sample(out, sample)
+    return out
